@@ -307,6 +307,8 @@ func (fr *frame) convert(st *State, v *Value, from, to types.Type) *Value {
 			noteClass(cls, as, false)
 			h := st.heapArr(cls, as)
 			st.heap[cls] = Store(h, r, mkUF("bytesOf", as, v.S))
+			// string([]byte(s)) == s
+			st.assume(Eq(mkUF("stringOf", SString, mkUF("bytesOf", as, v.S), StrLen(v.S)), v.S))
 			return &Value{K: VSlice, T: to, Arr: r, Len: StrLen(v.S)}
 		}
 	}
